@@ -111,7 +111,12 @@ fn gen_run(rng: &mut Rng) -> RunSpec {
         }
     }
     // the last documents may live in a directory that is given as one argument
+    // a quarter of the runs reach some documents through symbolic links: 1 = a linked single
+    // document, 2 = the directory argument is a link, 3 = a linked sub-directory below the
+    // directory argument
+    let link_kind = if rng.chance(1, 4) { 1 + rng.below(3) } else { 0 };
     let in_dir = if n_docs >= 2 && rng.chance(1, 3) { 1 + rng.below(n_docs.min(3)) } else { 0 };
+    let in_dir = if link_kind >= 2 { in_dir.max(1) } else { in_dir };
     let mut docs = vec![];
     for d in 0..n_docs {
         let waiting = wait_doc == Some(d) && uniform != Some(Format::Cram);
@@ -174,6 +179,39 @@ fn gen_run(rng: &mut Rng) -> RunSpec {
                 }
             }
         }
+    }
+    // symbolic links: only documents without front-matter includes and without a defect (see the
+    // model); the stores are never given on the command line and never point upwards
+    let linkable = |d: &DocSpec| d.defect == Defect::None && d.prepend.is_empty() && d.append.is_empty();
+    match link_kind {
+        1 => {
+            let cands: Vec<usize> = (0..docs.len()).filter(|i| !docs[*i].name.contains('/') && linkable(&docs[*i])).collect();
+            if !cands.is_empty() {
+                let i = *rng.pick(&cands);
+                let target = format!("store/{}", docs[i].name);
+                docs[i].stored_at = Some(target.clone());
+                docs[i].link = Some((docs[i].name.clone(), target));
+            }
+        }
+        2 => {
+            if docs.iter().filter(|d| d.name.starts_with("sub/")).all(linkable) {
+                for d in docs.iter_mut().filter(|d| d.name.starts_with("sub/")) {
+                    d.stored_at = Some(d.name.replacen("sub/", "realsub/", 1));
+                    d.link = Some(("sub".to_string(), "realsub".to_string()));
+                }
+            }
+        }
+        3 => {
+            let cands: Vec<usize> = (0..docs.len()).filter(|i| docs[*i].name.starts_with("sub/") && linkable(&docs[*i])).collect();
+            if !cands.is_empty() {
+                let i = *rng.pick(&cands);
+                let base = docs[i].name.replacen("sub/", "", 1);
+                docs[i].name = format!("sub/inner/{base}");
+                docs[i].stored_at = Some(format!("store/inner/{base}"));
+                docs[i].link = Some(("sub/inner".to_string(), "store/inner".to_string()));
+            }
+        }
+        _ => {}
     }
     let mut args: Vec<String> = vec![];
     for d in &docs {
@@ -283,7 +321,7 @@ impl Monitor for C20 {
     fn plan(&self, tier: Tier) -> Plan {
         let mut p = Plan::new(
             tier.pick(300, 6000),
-            "runs of 1-5 generated documents (Markdown/Cram, files and a directory, front-matter and CLI prepend/append) whose test cases pass / fail on output / fail on code / skip / time out (300 ms vs sleep 8) / detach / wait 2 s under a 1 s document limit, documents without own test cases (front-matter or prose only) that consist of includes, plus runs scrut cannot do (missing, non-UTF-8, unparsable document or include, missing shell, Cram script ended by exit); judged on marker log, -r json, exit status, summary line; non-trivial = at least two test cases executed and (more than one document, or includes, or a behaviour other than pass); distinct = hash of (format, document end, role/detached/result classes per test case) over the run",
+            "runs of 1-5 generated documents (Markdown/Cram, files and a directory, front-matter and CLI prepend/append) whose test cases pass / fail on output / fail on code / skip / time out (300 ms vs sleep 8) / detach / wait 2 s under a 1 s document limit, documents reached through symbolic links (a linked document, a linked directory argument, a linked sub-directory of the directory argument; no cycles), documents without own test cases (front-matter or prose only) that consist of includes, plus runs scrut cannot do (missing, non-UTF-8, unparsable document or include, missing shell, Cram script ended by exit); judged on marker log, -r json, exit status, summary line; non-trivial = at least two test cases executed and (more than one document, or includes, or a behaviour other than pass); distinct = hash of (format, document end, role/detached/result classes per test case) over the run",
         );
         p.chunk = tier.pick(2, 4);
         p.case_timeout_s = 120;
@@ -298,6 +336,7 @@ impl Monitor for C20 {
             ("markers-read".into(), tier.pick(60, 1200)),
             ("zero-own-tests:with-includes".into(), tier.pick(8, 150)),
             ("wait:budget-exhausted".into(), tier.pick(1, 25)),
+            ("links:any".into(), tier.pick(7, 140)),
         ];
         p.assumptions = vec![
             "not claimed: execution of test cases after a skipping or timed-out one, marker of the timed-out test case, anything but the exit status when the run is aborted, order of documents inside a directory argument, order of results in the report".into(),
@@ -368,6 +407,10 @@ impl Monitor for C20 {
         for (spec, d) in case.run.docs.iter().zip(model.docs.iter()) {
             if spec.tests.is_empty() && spec.defect == Defect::None {
                 buckets.push(if d.seq.is_empty() { "zero-own-tests:nothing-included" } else { "zero-own-tests:with-includes" }.into());
+            }
+            if let Some((l, _)) = &spec.link {
+                buckets.push(format!("links:{}", if *l == spec.name { "single-document" } else if l == "sub" { "directory-argument" } else { "sub-directory" }));
+                buckets.push("links:any".into());
             }
             if matches!(d.end, DocEnd::TimedOut { or_next: true, .. }) {
                 buckets.push("wait:budget-exhausted".into());
